@@ -22,7 +22,7 @@ class Ob:
 # ------------------------------------------------------------------------------------------------ z3 emission
 class Z:
     def __init__(s):
-        s.vars = {}; s.rep = {}; s.side = []; s.memo = {}; s.bmemo = {}; s.natoms = 0; s.napps = 0
+        s.vars = {}; s.rep = {}; s.side = []; s.memo = {}; s.bmemo = {}; s.natoms = 0; s.napps = 0; s.mono = False
         s.names = {}          # z3 const name -> ('var', name) | ('app', term) | ('atom', term)
 
     def v(s, n, sort='R'):
@@ -41,7 +41,16 @@ class Z:
             else:
                 nm = "@%s!%d" % (t.op, s.natoms); s.natoms += 1
                 r = z3.Real(nm); s.names[nm] = ('atom', t)
-                if t.op == 'exp': s.side.append(r > 0)
+                s.rep[t.id] = r
+                u = s.t(t.a[0])
+                # sound schema instances (DESIGN 2.3): sign/point facts of exp and log
+                if t.op == 'exp':
+                    s.side.append(r > 0)
+                    if s.mono: s.side.append(z3.Implies(u == 0, r == 1))
+                    if s.mono == 'mono': s.side.append(z3.Implies(u > 0, r > 1)); s.side.append(z3.Implies(u < 0, r < 1))
+                else:
+                    if s.mono: s.side.append(z3.Implies(u == 1, r == 0))
+                    if s.mono == 'mono': s.side.append(z3.Implies(u > 1, r > 0)); s.side.append(z3.Implies(z3.And(u > 0, u < 1), r < 0))
             s.rep[t.id] = r
         return r
 
@@ -157,7 +166,7 @@ def lemma_pass(ob, zz, log, budget_ms=5000):
 
 
 def build_query(ob, log):
-    zz = Z()
+    zz = Z(); zz.mono = ob.meta.get('schema')      # None | 'point' | 'mono': exp/log schema instances (DESIGN 2.3)
     parent = merge_pass(ob, log)
     for n in _nodes(ob):
         if n.id in parent: zz.rep[n.id] = zz.fresh_for(parent[n.id])
@@ -235,13 +244,24 @@ def solve_one(ob, timeout_s=60, second=False, seed=0):
     t0 = time.time(); log = []
     res = dict(name=ob.name, prop=ob.prop, expect=ob.expect, status='undecided', backend=None, detail='', meta=ob.meta)
     try:
-        zz, cons = build_query(ob, log)
-        s = z3.Solver(); s.set('timeout', int(timeout_s * 1000)); s.set('random_seed', seed % 1000)
-        s.add(*cons)
-        smt2 = s.to_smt2()
-        res['smt2_bytes'] = len(smt2)
-        r = s.check(); backend = 'z3-%s' % z3.get_version_string()
-        model = s.model() if r == z3.sat else None
+        r = z3.unknown; model = None; backend = 'z3-%s' % z3.get_version_string()
+        # hypothesis slicing: first without the (redundant, separately proved) disequalities of the path condition -
+        # fewer hypotheses make a stronger statement, so `unsat` there is a valid discharge; `sat` there means nothing
+        slim = [h for h in ob.hyps if not (h.op == 'cmp' and h.a[0] == '!=')]
+        if ob.expect == 'unsat' and len(slim) < len(ob.hyps) and not ob.meta.get('noslice'):
+            ob2 = Ob(ob.name, slim, ob.goal, ob.prop, ob.expect, ob.meta, ob.lemmas)
+            zz2, cons2 = build_query(ob2, log)
+            s0 = z3.Solver(); s0.set('timeout', int(timeout_s * 400)); s0.add(*cons2)
+            if s0.check() == z3.unsat:
+                r = z3.unsat; backend += '(sliced hypotheses)'; smt2 = s0.to_smt2(); res['smt2_bytes'] = len(smt2)
+        if r != z3.unsat:
+            zz, cons = build_query(ob, log)
+            s = z3.Solver(); s.set('timeout', int(timeout_s * 1000)); s.set('random_seed', seed % 1000)
+            s.add(*cons)
+            smt2 = s.to_smt2()
+            res['smt2_bytes'] = len(smt2)
+            r = s.check()
+            model = s.model() if r == z3.sat else None
         if r == z3.unknown:
             # alternative strategy: nlsat tactic on the purified goal
             try:
